@@ -689,6 +689,60 @@ theorem select_in_exec_selects_fails :
     (runOne Quirks.code false 1 ⟨KS.emptyStore, 0, []⟩ 0 (cSELECT [49])).1.db = 1 :=
   ⟨by decide, by decide, by decide, rfl, by decide⟩
 
+/-! ## 12. Blocked clients are served between frames, never inside EXEC -/
+
+/-- The reply to ANY frame — EXEC's array included — is the one `processFrame` computes from the
+    dataset the frame found: clients blocked in BLPOP/BRPOP play no part in it.  Inside EXEC nobody
+    else is served (a queued `RPUSH k a; LPOP k` gets `a` back although somebody waits on `k`). -/
+theorem frame_reply_ignores_blocked_clients (q : Quirks) (L : Loop) (cid : Nat) (r : Req) :
+    (Loop.frame q L cid r).2.1 = (processFrame q L.srv cid r).2 := rfl
+
+/-- The service of blocked clients is loop work AFTER the frame: connections and hand-over log are
+    those `processFrame` leaves, the dataset is the one it leaves with `serveAll` applied — a frame
+    event followed by an `Event.between`, to which `exec_is_one_transition` applies. -/
+theorem service_is_loop_work_after_the_frame (q : Quirks) (L : Loop) (cid : Nat) (r : Req) :
+    (Loop.frame q L cid r).1.srv.conns = (processFrame q L.srv cid r).1.conns ∧
+    (Loop.frame q L cid r).1.srv.ext = (processFrame q L.srv cid r).1.ext ∧
+    ∃ ws ready, (Loop.frame q L cid r).1.srv.store =
+        (serveAll q.ks r.now (processFrame q L.srv cid r).1.store ws ready).1 ∧
+      (Loop.frame q L cid r).1.srv =
+        run q L.srv [.frame cid r, .between fun s => (serveAll q.ks r.now s ws ready).1] :=
+  ⟨rfl, rfl, _, _, rfl, rfl⟩
+
+/-- A push that is only queued wakes nobody: no delivery, the waiters stay as they are, the dataset
+    is untouched — until EXEC. -/
+theorem queued_push_wakes_nobody (q : Quirks) (L : Loop) (cid : Nat) (r : Req)
+    (hin : (L.srv.conns cid).inTx = true) (hq : queueable q r.cmd = true) :
+    (Loop.frame q L cid r).2.2 = [] ∧ (Loop.frame q L cid r).1.waiters = L.waiters ∧
+    (Loop.frame q L cid r).1.srv.store = L.srv.store := by
+  have hq' := (queueable_iff q r.cmd).1 hq
+  have himm : q.immediate.contains (nameOf r.cmd) = false := by
+    cases hc : q.immediate.contains (nameOf r.cmd)
+    · rfl
+    · exact absurd (List.contains_iff_mem.1 hc) hq'.2.2
+  unfold Loop.frame
+  simp only [processFrame_queue q L.srv cid r hin hq, hin, himm]
+  simp [serveAll]
+
+def cRPUSH (k : Bytes) (vs : List Bytes) : Cmd := [82, 80, 85, 83, 72] :: k :: vs
+def cLPOP (k : Bytes) : Cmd := [[76, 80, 79, 80], k]
+
+/-- connection 9 is blocked in `BLPOP k 0`; connection 1 has queued `RPUSH k a b; LPOP k` -/
+def lBlocked : Loop :=
+  { srv := setConn {} 1 { inTx := true, queue := [cRPUSH [107] [[97], [98]], cLPOP [107]] }
+    waiters := [⟨9, 0, [[107]], true⟩] }
+
+/-- EXEC answers `[2, a]` — the transaction pops its own first element, nobody was served in
+    between — and only then connection 9 is served the element that is left, `b` -/
+example : (Loop.frame Quirks.spec lBlocked 1 { cmd := cEXEC }).2.1 = .exec [.frame (.int 2), .frame (.bulk [97])] ∧
+    (Loop.frame Quirks.spec lBlocked 1 { cmd := cEXEC }).2.2 = [(9, .array [.bulk [107], .bulk [98]])] ∧
+    (Loop.frame Quirks.spec lBlocked 1 { cmd := cEXEC }).1.waiters = [] :=
+  ⟨rfl, rfl, by decide⟩
+
+/-- … and with `RPUSH k a; LPOP k` nothing is left: connection 9 stays blocked -/
+example : (Loop.frame Quirks.spec { lBlocked with srv := setConn {} 1 { inTx := true, queue := [cRPUSH [107] [[97]], cLPOP [107]] } }
+      1 { cmd := cEXEC }).2 = (.exec [.frame (.int 1), .frame (.bulk [97])], []) := rfl
+
 /-! ## 11. The model's tables are the source's (regenerated by translator/tx_facts.py on every run)
 
 These are stated so that they hold for the tree as found AND after each of the proposed fixes
@@ -720,5 +774,14 @@ theorem source_variant_within_tree_as_found :
     syntactic test); nothing sets `aborted`; `queue_command` validates nothing -/
 theorem loop_structure_matches_source :
     Gen.execIsSynchronous = true ∧ Gen.abortedSetSites = 0 ∧ Gen.queueCommandValidates = false := by decide
+
+/-- pushes run by EXEC wake nobody; `handle_exec` serves the keys it pushed to after its loop
+    (the structure `Loop.frame` transliterates) -/
+theorem exec_serves_waiters_after_its_loop : Gen.execNotifiesWaiters = false := by decide
+
+/-- every fact above was actually read off the source: the translator substitutes a pessimistic
+    value for a shape it does not recognise (so that model and driver keep building and the TCP run
+    can search for a failing input) and lists it here -/
+theorem source_shapes_recognised : Gen.txUnrecognised = [] := by decide
 
 end Ferrous.C07
